@@ -42,6 +42,10 @@ def check_type(value: Any, attr_type: Type) -> bool:
     if attr_type is Any or isinstance(attr_type, TypeVar):
         return True
 
+    if attr_type is None:
+        # `None` as a type argument (`list[None]`; `typing` generics normalise it)
+        attr_type = type(None)
+
     if attr_type is float:
         attr_type = numbers.Real
 
@@ -84,9 +88,7 @@ def check_type(value: Any, attr_type: Type) -> bool:
                         if not check_type(item, attr_type.__args__[i]):
                             return False
             elif attr_type.__origin__ == type:
-                if attr_type.__args__[0] is not Any and not issubclass(
-                    value, attr_type.__args__[0]
-                ):
+                if not _is_subclass(value, attr_type.__args__[0]):
                     return False
 
             return True
@@ -96,6 +98,31 @@ def check_type(value: Any, attr_type: Type) -> bool:
         )  # pragma: no cover; This is here as a fallback currently, just in case!
 
     return isinstance(value, attr_type)
+
+
+def _is_subclass(value: type, target: Type) -> bool:
+    """
+    The check behind `Type[target]`: whether the class `value` is a subclass of
+    `target`, where `target` may itself be `Any`, `None`, a union or a
+    parameterised generic (of which only the origin class can be checked).
+    """
+    if target is Any or isinstance(target, TypeVar):
+        return True
+    if target is None:
+        target = type(None)
+    if sys.version_info >= (3, 10) and isinstance(target, types.UnionType):
+        return any(_is_subclass(value, type_) for type_ in target.__args__)
+    if hasattr(target, "__origin__"):
+        if target.__origin__ is Union:
+            return any(_is_subclass(value, type_) for type_ in target.__args__)
+        if target.__origin__ in (Literal, LiteralExtension):
+            return False  # `Literal[...]` describes values, not classes.
+        while hasattr(target, "__origin__"):
+            target = target.__origin__
+    try:
+        return issubclass(value, target)
+    except TypeError:  # pragma: no cover; not a class we can check against
+        return False
 
 
 def get_collection_item_type(container_type: Type) -> Type:
